@@ -1,0 +1,18 @@
+//go:build verif
+
+package elf
+
+import "mltwist/pkg/model"
+
+// Exports for the verification harness (cmd/verifharness). Guarded by the
+// build tag "verif"; nothing here is compiled into ordinary builds.
+
+// VerifNewMemory builds a Memory out of (begin, bytes) pairs through
+// newMemory, exactly as MachineCode and Memory do.
+func VerifNewMemory(begins []model.Addr, bytes [][]byte) (*Memory, error) {
+	blocks := make([]Block, len(begins))
+	for i := range begins {
+		blocks[i] = newBlock(begins[i], bytes[i])
+	}
+	return newMemory(blocks)
+}
